@@ -24,7 +24,11 @@ import GoLucene.Proofs.DefaultField
                              with `*`/`?` or /slashes/, a float text that is an integer, and — a FOURTH case — a bare
                              word with escaped slashes (`escaped_slash_retyped`: the query `a:\/x\/`).
   End to end: `query_decodes`, `query_roundtrip`, `query_roundtrip'`, `query_deep_equal` (§9), with the law
-  structures `JsonLaws`, `NumLaws`, `FmtLaws` of JsonRoundTrip as hypotheses.
+  structures `JsonLaws`, `NumLaws`, `FmtLaws` of JsonRoundTrip as hypotheses, and with `depthOK e` (the encoding nests
+  at most 10000 arrays / objects, the limit of encoding/json's scanner) as an explicit hypothesis on the parse result:
+  it does NOT follow from `parseQuery … = .ok e` (a query may nest more than 10000 parentheses / NOTs), and without it
+  the decode clause is false of the model (`Laws.decode_needs_depth`).  `noBigIntBound` now also excludes
+  integer-valued FLOAT range bounds beyond 2^53 (`JsonRoundTrip.reencode_needs_noBigFloatBound`).
   §10: the exclusions through the whole of `lucene.Parse` on concrete queries, necessity of the hypotheses, non-vacuity.
 -/
 set_option linter.unusedSimpArgs false
@@ -1606,10 +1610,10 @@ end
     `retype e`, and the decoded expression validates. -/
 theorem query_decodes (J : JsonLaws) (N : NumLaws) (env : Env) (s df : Bytes)
     (hs : validUtf8 s = true) (hdf : validUtf8 df = true) (e : Expr) (h : parseQuery env s df = .ok e)
-    (j : Bytes) (hm : marshalExpr e = .ok j) :
+    (hdp : depthOK e = true) (j : Bytes) (hm : marshalExpr e = .ok j) :
     unmarshalTop j = .ok (retype e) ∧ validateExpr (retype e) = true := by
   obtain ⟨hsh, hv⟩ := parse_shape env s df e h
-  exact ⟨roundtrip_decodes J N e hsh hv (parse_allStringsValid env s df e h hs hdf) (parse_intsInt64 env s df e h) j hm,
+  exact ⟨roundtrip_decodes J N e hsh hv (parse_allStringsValid env s df e h hs hdf) (parse_intsInt64 env s df e h) hdp j hm,
     validate_retype e hv (parse_likeKindOK env s df e h)⟩
 
 /-- **C12 over queries.**  For every valid-UTF-8 query (and default field) that `Parse` accepts, with result `e` whose
@@ -1619,13 +1623,13 @@ theorem query_decodes (J : JsonLaws) (N : NumLaws) (env : Env) (s df : Bytes)
     `kindStable e`, i.e. (`parse_kindStable_iff`) when the leaves satisfy `leavesStable`. -/
 theorem query_roundtrip (J : JsonLaws) (N : NumLaws) (F : FmtLaws) (ip : Nat → Bool) (env : Env)
     (s df : Bytes) (hs : validUtf8 s = true) (hdf : validUtf8 df = true)
-    (e : Expr) (h : parseQuery env s df = .ok e) (j : Bytes) (hm : marshalExpr e = .ok j) :
+    (e : Expr) (h : parseQuery env s df = .ok e) (hdp : depthOK e = true) (j : Bytes) (hm : marshalExpr e = .ok j) :
     ∃ e', unmarshalTop j = .ok e' ∧ e' = retype e ∧ validateExpr e' = true ∧
       (noNegZeroLeaf e = true → noBigIntBound e = true → marshalExpr e' = .ok j) ∧
       (printNumOK e = true → strE ip false e' = strE ip false e) ∧
       (kindStable e = true → e' = e) ∧ (env.cls.slashNotAlnum → leavesStable e = true → e' = e) := by
   obtain ⟨hsh, hv⟩ := parse_shape env s df e h
-  obtain ⟨hd, hval⟩ := query_decodes J N env s df hs hdf e h j hm
+  obtain ⟨hd, hval⟩ := query_decodes J N env s df hs hdf e h hdp j hm
   refine ⟨retype e, hd, rfl, hval, ?_, ?_, retype_stable e, ?_⟩
   · intro hz hb
     rw [marshal_retype N F e hsh hv (parse_fieldsCanon env s df e h) hz hb, hm]
@@ -1637,20 +1641,20 @@ theorem query_roundtrip (J : JsonLaws) (N : NumLaws) (F : FmtLaws) (ip : Nat →
 /-- the statement in the form asked for: all remaining exclusions as hypotheses (no hypothesis on the class table) -/
 theorem query_roundtrip' (J : JsonLaws) (N : NumLaws) (F : FmtLaws) (ip : Nat → Bool) (env : Env)
     (s df : Bytes) (hs : validUtf8 s = true) (hdf : validUtf8 df = true)
-    (e : Expr) (h : parseQuery env s df = .ok e) (j : Bytes) (hm : marshalExpr e = .ok j)
+    (e : Expr) (h : parseQuery env s df = .ok e) (hdp : depthOK e = true) (j : Bytes) (hm : marshalExpr e = .ok j)
     (hz : noNegZeroLeaf e = true) (hb : noBigIntBound e = true) (hn : printNumOK e = true) :
     ∃ e', unmarshalTop j = .ok e' ∧ validateExpr e' = true ∧ marshalExpr e' = .ok j ∧
       strE ip false e' = strE ip false e ∧ (kindStable e = true → e' = e) := by
-  obtain ⟨e', h1, _, h3, h4, h5, h6, _⟩ := query_roundtrip J N F ip env s df hs hdf e h j hm
+  obtain ⟨e', h1, _, h3, h4, h5, h6, _⟩ := query_roundtrip J N F ip env s df hs hdf e h hdp j hm
   exact ⟨e', h1, h3, h4 hz hb, h5 hn, h6⟩
 
 /-- deep equality over queries: if the leaves of the result satisfy `leavesStable` (no quoted / escaped string that
     reads as a pattern, no integer-valued float, no int bound beyond 2^53), the decoder returns the very same tree -/
 theorem query_deep_equal (J : JsonLaws) (N : NumLaws) (env : Env)
     (hk : env.cls.slashNotAlnum) (s df : Bytes) (hs : validUtf8 s = true) (hdf : validUtf8 df = true)
-    (e : Expr) (h : parseQuery env s df = .ok e) (j : Bytes) (hm : marshalExpr e = .ok j)
+    (e : Expr) (h : parseQuery env s df = .ok e) (hdp : depthOK e = true) (j : Bytes) (hm : marshalExpr e = .ok j)
     (hl : leavesStable e = true) : unmarshalTop j = .ok e := by
-  have := (query_decodes J N env s df hs hdf e h j hm).1
+  have := (query_decodes J N env s df hs hdf e h hdp j hm).1
   rwa [retype_stable e ((parse_kindStable_iff env s df e h hk).2 hl)] at this
 
 /-! ## 10. the exclusions on concrete queries (the whole of `lucene.Parse`: decoder, lexer, shift/reduce run,
@@ -1790,7 +1794,7 @@ example : validUtf8 (b "a:b*") = true ∧ validUtf8 ([] : Bytes) = true ∧ noNe
 /-- so the theorem applies: the encoding of `Parse("a:b*")` decodes to the very same tree -/
 example (J : JsonLaws) (N : NumLaws) (j : Bytes) (hm : marshalExpr eLike = .ok j) : unmarshalTop j = .ok eLike :=
   query_deep_equal J N asciiEnv asciiEnv_slash (b "a:b*") [] (by decide +kernel) (by decide +kernel) eLike parse_qLike
-    j hm (by decide +kernel)
+    (by decide +kernel) j hm (by decide +kernel)
 
 /-- the UTF-8 hypothesis is not an ASCII hypothesis: `a:é` (C3 A9) is valid, `a:` followed by a lone C3 is not -/
 example : validUtf8 (b "a:" ++ [0xC3, 0xA9]) = true ∧ validUtf8 (b "a:" ++ [0xC3]) = false := by decide +kernel
@@ -1816,7 +1820,7 @@ theorem parse_qDf : parseQuery asciiEnv (b "foo") (b "d") = .ok eDf := by
 
 example (J : JsonLaws) (N : NumLaws) (j : Bytes) (hm : marshalExpr eDf = .ok j) : unmarshalTop j = .ok eDf :=
   query_deep_equal J N asciiEnv asciiEnv_slash (b "foo") (b "d") (by decide +kernel) (by decide +kernel) eDf parse_qDf
-    j hm (by decide +kernel)
+    (by decide +kernel) j hm (by decide +kernel)
 
 /-- a larger tree of the parser's shape — `(a:[1 TO 5] AND b:(x OR y)) OR NOT c:z~2^3` — satisfies all the executable
     side conditions (the proved ones and the remaining exclusions) -/
@@ -1836,7 +1840,7 @@ def eBig : Expr :=
 example : semShapeT eBig = true ∧ validateExpr eBig = true ∧ fieldsCanon eBig = true ∧ intsInt64 eBig = true ∧
     likeKindOK eBig = true ∧ allStringsValid eBig = true ∧ printFieldOK eBig = true ∧ printNumOK eBig = true ∧
     printStable eBig = true ∧ noNegZeroLeaf eBig = true ∧ noBigIntBound eBig = true ∧ leavesStable eBig = true ∧
-    kindStable eBig = true := by decide +kernel
+    kindStable eBig = true ∧ depthOK eBig = true := by decide +kernel
 
 end JsonParse
 end GoLucene
